@@ -7,8 +7,8 @@ From Coq Require Import NArith List.
 Import ListNotations.
 From CXV Require Import Gen.Blocks Parse.BlocksSM Parse.BlocksSpec Parse.BlocksThms.
 From CXV Require Gen.PinsC03.
-From CXV Require Import Gen.ParserTables Parse.Balanced Parse.Specs Parse.ClassEnum Parse.CtorDtor.
-From CXV Require Import Gen.TokTy Parse.Declarator Parse.DeclSpec Parse.DeclThms Parse.BaseClause Parse.EnumList Parse.Specs Parse.Init Parse.Members Parse.MethodTail.
+From CXV Require Import Gen.ParserTables Parse.Balanced Parse.BalancedThms Parse.Specs Parse.ClassEnum Parse.CtorDtor.
+From CXV Require Import Gen.TokTy Parse.Declarator Parse.DeclSpec Parse.DeclThms Parse.BaseClause Parse.EnumList Parse.Specs Parse.Init Parse.Members Parse.MethodTail Parse.DeclStmt Parse.MemberStmt.
 Open Scope N_scope.
 
 (* the access delivered with a member equals the backward-scan specification
@@ -136,7 +136,42 @@ Theorem friend_constructor_compares_with_befriended_class : forall h c pre, c <>
   ctor_dtor true true true (named h) (pre ++ [named c; named c]) = CDCtor.
 Proof. exact friend_ctor. Qed.
 
-(* the functions the hand-written models above mirror (_parse_class_decl, _parse_class_decl_base_clause, _maybe_parse_class_enum_decl, _parse_decl, _parse_method_end, _discard_ctor_initializer, _parse_field and _parse_bitfield) are, token for
+(* How one member declaration statement is put together inside a class body
+   (_parse_declarations / _parse_decl / _parse_function / _parse_field):
+   `spec* T spec* m1, m2, ..., mn <end>` where every m is a field declarator (any legal
+   object type, optional bit-field width, optional initialiser) or a method declarator
+   (any legal return type, any parameter list of the declarator grammar, qualifiers
+   const / volatile / & / && / override / final / throw / noexcept in any order), in any
+   mixture and order, and <end> is ';' or, behind a last method, `= 0 ;`, `= delete ;`,
+   `= default ;` or a body: exactly one member per declarator, in source order, each of
+   its own kind (a parameter list behind the name makes a method, anything else a
+   field), with the specifier flags and base type of the statement, its own bits /
+   value / qualifier set, the body skipped exactly, the rest of the class untouched. *)
+Theorem member_statement_decodes_partial : forall cls dcls pre post b items last e rest,
+  forallb spec_kw pre = true -> forallb spec_kw post = true -> has T_extern (pre ++ post) = false ->
+  Forall mditem_ok items -> mditem_ok last -> mlast_ok last e ->
+  let m := apply_kws (pre ++ post) mods0 in
+  let bt := TBase b (m_const m) (m_volatile m) in
+  ev (fun f => member_stmt (S (length items)) f cls dcls
+                 (kw_toks pre ++ nm_tok b :: kw_toks post ++ mitems_toks items last e ++ rest))
+     (DOk (m, map (mditem_entry bt) items ++ [mlast_entry bt last e], rest)).
+Proof. exact member_stmt_roundtrip. Qed.
+
+(* Constructors and destructors as whole statements: in class C, `spec* C ( params ) quals end`
+   is one method flagged constructor and `spec* ~C ( params ) quals end` one flagged destructor,
+   both without return type, with exactly the parameters written, the qualifier set written and
+   the ending written (';', `= delete`, `= default`, `= 0`, a body, or -- constructors -- a member
+   initialiser list with its body, skipped exactly). *)
+Theorem special_member_statement_decodes_partial : forall cls dcls pre nm ps va quals e rest (ctor : bool),
+  forallb spec_kw pre = true -> has T_extern pre = false ->
+  cls <> 0 -> dcls <> 0 -> dcls <> cls -> nm = (if ctor then cls else dcls) ->
+  layer_ok (LFn ps va) -> Forall mq_ok quals ->
+  (match e with MeBody soup => bal tk kty T_LIT_123 T_LIT_125 soup | MeCtor _ _ => mend_ok e rest | _ => True end) ->
+  ev (fun f => member_stmt 1 f cls dcls (kw_toks pre ++ special_toks nm ps va quals e ++ rest))
+     (DOk (apply_kws pre mods0, [MMethod nm None ps va ctor (negb ctor) (apply_end e (quals_of quals))], rest)).
+Proof. exact special_member_roundtrip. Qed.
+
+(* the functions the hand-written models above mirror (_parse_class_decl, _parse_class_decl_base_clause, _maybe_parse_class_enum_decl, _parse_decl, _parse_method_end, _discard_ctor_initializer, _parse_field, _parse_bitfield, _parse_declarations and _parse_function) are, token for
    token of their syntax trees, the ones the models were written against: the
    translator recomputes the digests from the live code and produces Gen/PinsC03.v
    only when they match *)
@@ -181,3 +216,22 @@ Print Assumptions unqualified_name_outside_class_is_neither.
 Print Assumptions decorated_type_is_neither.
 Print Assumptions friend_constructor_compares_with_befriended_class.
 Print Assumptions modelled_functions_are_the_pinned_ones.
+Print Assumptions member_statement_decodes_partial.
+Print Assumptions special_member_statement_decodes_partial.
+
+(* `static Foo * f1 : 3 = 1, & m2 ( Bar a ) const noexcept = 0 ;` and `explicit Cls ( ) : a ( 1 ) { }` in class Cls (ids 5 / 6) *)
+Example c03_member_stmt_run :
+  member_stmt 2 60 5 6 (kw_toks [T_static] ++ nm_tok 7 :: kw_toks [] ++
+                        mitems_toks [MIField [LPtr false false] 1 (Some 3) (InitEq [mkTk 3 9])]
+                                    (MIMethod [LRef] [(TBase 8 false false, Some 4)] false 2 [MqConst; MqNoexcept None]) MePure ++ [ktok T_LIT_125])
+  = DOk (mkMods false false false false false true false false false,
+         [MField (Some 1) (TPtr (TBase 7 false false) false false) (Some 3) (Some [mkTk 3 9]);
+          MMethod 2 (Some (TRef (TBase 7 false false))) [(TBase 8 false false, Some 4)] false false false
+                  (mkMT true false false false 0 None (Some []) true false false false)], [ktok T_LIT_125]).
+Proof. vm_compute. reflexivity. Qed.
+
+Example c03_ctor_stmt_run :
+  member_stmt 1 60 5 6 (kw_toks [T_explicit] ++ special_toks 5 [] false [] (MeCtor [mkCI [mkTk T_NAME 7] false [mkTk 3 9] false] []) ++ [ktok T_LIT_125])
+  = DOk (mkMods false false false false false false true false false,
+         [MMethod 5 None [] false true false (mkMT false false false false 0 None None false false false true)], [ktok T_LIT_125]).
+Proof. vm_compute. reflexivity. Qed.
